@@ -781,7 +781,16 @@ impl<S: BitmapSlice + Send + Sync> FileSystem for PassthroughFs<S> {
                     None
                 };
 
-                self.open_inode_as(ctx, entry.inode, args.flags as i32)?
+                match self.open_inode_as(ctx, entry.inode, args.flags as i32) {
+                    Ok(f) => f,
+                    Err(e) => {
+                        // The client gets an error, not the entry: give back the
+                        // reference do_lookup() took or the inode can never be forgotten.
+                        let mut inodes = self.inode_map.get_map_mut();
+                        self.forget_one(&mut inodes, entry.inode, 1);
+                        return Err(e);
+                    }
+                }
             }
         };
 
